@@ -9,6 +9,8 @@ for s in "$@"; do
     out=$(VERIF_SEED=$s ./check $p $tier 2>&1); rc=$?
     if [ $rc -ne 0 ]; then fail=$((fail+1)); echo "FAIL seed=$s $p rc=$rc"; echo "$out" | grep -v KNOWN | tail -4; fi
     # on the unchanged tree every translator must translate: a degraded tie here is a regression of the translator, not of verde
+    tr=$(grep -o '"translator": "[^"]*"' evidence/$p.json 2>/dev/null | head -1)
+    case "$tr" in *'"ok"'|*'"not used"'|"") ;; *) fail=$((fail+1)); echo "FAIL seed=$s $p translator status on the clean tree: $tr";; esac
     if echo "$out" | grep -q "tie-degraded"; then fail=$((fail+1)); echo "FAIL seed=$s $p translator degraded on the clean tree"; echo "$out" | grep "tie-degraded" | cut -c1-300; fi
   done
 done
